@@ -59,9 +59,11 @@ class EnsembleSampler(MarkovChain):
             self.walker_positions = self.__validate_starting_positions(
                 starting_positions
             )
-            self.n_walkers, self.n_parameters = starting_positions.shape
+            self.n_walkers, self.n_parameters = self.walker_positions.shape
+            # floating-point, whatever type the posterior returns: log-probabilities
+            # written into an integer array would be truncated
             self.walker_probs = array(
-                [self.posterior(t) for t in self.walker_positions]
+                [self.posterior(t) for t in self.walker_positions], dtype=float
             )
 
             # storage for diagnostic information
